@@ -343,7 +343,7 @@ static void fault_run_all(void) {
     uint64_t nrand = O.budget ? O.budget : (O.thorough ? 40000 : 2000);
     struct vh_buf x = {0};
     for (uint64_t u = 0; u < nsys + nrand; u++) {
-      if (!O.thorough && u < nsys && (u % 4) != 0) continue;
+      if (!O.thorough && u < nsys && (u % 2) != 0) continue;
       if (!MINE()) continue;
       struct vh_rng r;
       vh_rng_seed(&r, O.seed * 0x100000001b3ull + u);
